@@ -103,7 +103,12 @@ func (e *OpEngine) largeThresholdShapes() [][]int {
 		if c <= 40 || c > 512 {
 			continue
 		}
-		out = append(out, []int{c + 1, 1})
+		// around the constant and at its first multiple (block loops tend to be wrong exactly there), as flat
+		// vectors and with a trailing unit / pair dimension
+		out = append(out, []int{c}, []int{c + 1}, []int{c + 1, 1})
+		if 2*c <= 700 {
+			out = append(out, []int{2 * c})
+		}
 		if (c+2)*2 <= 700 {
 			out = append(out, []int{c + 2, 2})
 		}
